@@ -27,10 +27,10 @@ func TestVerifC05Sockets(t *testing.T) {
 			"oracle = each registered member receives exactly one of k consecutive dispatches and nobody else receives anything; distinct = distinct histories")
 	dynamicHostResolver.Stop()
 	dynamicHostResolver = &DynamicHostResolver{interval: time.Hour, stop: 1, hostIPs: make(map[string]*AddressWithCallback)}
-	nseq := ev.Pick(400, 6000)
-	ntrial := ev.Pick(25, 400)
+	nseq := ev.Pick(400, 1200)
+	ntrial := ev.Pick(25, 100)
 	var firstMember, floods, outages int64
-	noutage := ev.Pick(6, 60)
+	noutage := ev.Pick(6, 18)
 	workers := 8
 	var stats c19Stats
 	var wg sync.WaitGroup
@@ -88,7 +88,7 @@ func TestVerifC05Sockets(t *testing.T) {
 					w.sinks.forget("outage")
 					if err := w.sinks.listenUDP(victim); err != nil {
 						run.Inconclusive(1)
-						break
+						return
 					}
 					time.Sleep(5 * time.Millisecond)
 					// the rotation may stand anywhere: two whole cycles, each member twice
@@ -144,9 +144,18 @@ func TestVerifC05Sockets(t *testing.T) {
 					if bad {
 						run.Violation("with one registered member unreachable the others no longer get one dispatch of every k", map[string]any{"members": w.members(), "unreachable": victim, "dispatches": 3 * cycles, "arrivals_per_member": count, "scheme": scheme})
 					}
-					if err := w.sinks.listenTCP(victim); err != nil {
+					var lerr error
+					for try := 0; try < 50; try++ {
+						if lerr = w.sinks.listenTCP(victim); lerr == nil {
+							break
+						}
+						time.Sleep(20 * time.Millisecond)
+					}
+					if lerr != nil {
+						// the member's address cannot be listened on again: this worker's sockets no longer
+						// match its model, it ends here
 						run.Inconclusive(1)
-						break
+						return
 					}
 					atomic.AddInt64(&outages, 1)
 					atomic.AddInt64(&stats.steps, 1)
